@@ -261,7 +261,13 @@ fn main() {
                 .collect();
             lx.nontrivial(sets.iter().all(|s| s.len() >= 2));
             lx.single(|lx| {
-                let grid = Grid::from(c.axes.iter().map(|&a| Bins::new(Edges::from(GRID_SETS[a as usize].to_vec()))).collect::<Vec<_>>());
+                // the projections arrive in a Vec that was grown by pushes (spare capacity), as a caller
+                // assembling a grid axis by axis would have it
+                let mut projections = Vec::with_capacity(c.axes.len() + 3);
+                for &a in &c.axes {
+                    projections.push(Bins::new(Edges::from(GRID_SETS[a as usize].to_vec())));
+                }
+                let grid = Grid::from(projections);
                 let shape: Vec<usize> = sets.iter().map(|s| s.len().saturating_sub(1)).collect();
                 lx.check(grid.shape() == shape, "C13/grid-shape", || format!("grid over {:?}: shape() = {:?}, expected {:?}", sets, grid.shape(), shape));
                 lx.check(grid.ndim() == d && grid.projections().len() == d, "C13/grid-ndim", || format!("grid over {:?}: ndim() = {}", sets, grid.ndim()));
